@@ -4,6 +4,20 @@ import json, os, sys
 HERE = os.path.dirname(os.path.abspath(__file__))
 
 CHECKS = {
+ "C01": dict(
+    technique="interval-discharged zone analysis, dominating-guard + who-may-construct queries, layout/trait facts from rustc, call-graph SCC recognisers, purity census with pointer-cast value flow, explicit-panic inventory",
+    design_ref="DESIGN.md §4 C01",
+    text="Claimed in part. Decides: (a) in the core reader modules every arithmetic/bounds Assert is discharged for all inputs "
+         "and no panicking call exists; (b) a TableRef can only come out of Cursor::finish after check_in_bounds(pos)? or be "
+         "re-wrapped from an existing one, and Cursor.pos only advances by saturating_add -- the single gate that licenses the "
+         "generated getters' unwraps; (c) every type instantiating the zero-copy reads has alignment 1 and every packed record "
+         "has size == RAW_BYTE_LEN; (e) every call-graph cycle in read-fonts is depth-bounded (stack-overflow clause); (f) "
+         "read-fonts has no unsafe code, no mutable/interior-mutable statics, no time/env/random/thread observation and every "
+         "pointer-to-integer cast feeds only address differences (purity for every call, thread and address); (g) the explicit "
+         "unwrap/expect/panic! inventory of hand-written readers equals the confirmed 39 sites. Not decided: overflow/bounds "
+         "sites in hand-written table helpers outside the core zone, loop termination, the linear-time clause.",
+    note="Trusted: rustc layout/MIR, bytemuck's own checks, confirmed per-function reasons in rules/confirmed_panics_read_fonts.json (read by hand). C01-d (generated shape agreement) is reported under C04's engine when built.",
+ ),
  "C05": dict(
     technique="path-sensitive typestate {dirty,clean} over MIR, dominating-guard and who-may-call queries, cast census, sibling-predicate agreement",
     design_ref="DESIGN.md §4 C05",
